@@ -639,13 +639,20 @@ impl<'a> Gen<'a> {
                     }
                     let up = self.rng.range(lo, depth_of(base).min(2));
                     let mut start = base.to_string();
+                    // (a dot component is invariant text however it is spelled: a literal, a class
+                    // with one member, a singular alternative, an exact repetition)
                     let mut run: Vec<&str> = Vec::new();
                     if up == 0 {
-                        run.push(".");
+                        run.push(if self.rng.chance(3, 4) { "." } else { *self.rng.pick(&["[.]", "{.}"]) });
                     }
                     for _ in 0..up {
                         start = parent(&start).to_string();
-                        run.push("..");
+                        run.push(if self.rng.chance(3, 4) {
+                            ".."
+                        }
+                        else {
+                            *self.rng.pick(&["[.][.]", "[.].", ".[.]", "<.:2>", "{..}", "<[.]:2>", "{.}."])
+                        });
                     }
                     let rest = self.glob_expr(model, &start);
                     let expr = if rest.is_empty() { run.join("/") } else { format!("{}/{}", run.join("/"), rest) };
